@@ -208,6 +208,22 @@ POPEN_EXC = ("FileNotFoundError", "PermissionError", "EAGAIN")
 
 
 def _make_exc(label, variant):
+    e = _make_exc0(label, variant)
+    e._c09_injected = True
+    return e
+
+
+def _is_injected(e):
+    seen = 0
+    while e is not None and seen < 8:
+        if getattr(e, "_c09_injected", False):
+            return True
+        e = e.__cause__ or e.__context__
+        seen += 1
+    return False
+
+
+def _make_exc0(label, variant):
     if label.startswith("Popen"):
         if variant == "FileNotFoundError":
             return FileNotFoundError(errno.ENOENT, "c09 injected: No such file or directory", "c09-injected")
@@ -411,12 +427,15 @@ def _stdio():
     out = {}
     for n in ("stdin", "stdout", "stderr", "__stdin__", "__stdout__", "__stderr__"):
         o = getattr(sys, n)
-        out[n] = [id(o), bool(getattr(o, "closed", False))]
+        out[n] = [id(o), bool(getattr(o, "closed", False)), type(o).__name__]
     return out
 
 
 def snapshot(XSH, work, base):
+    import subprocess
+
     gc.collect()
+    getattr(subprocess, "_cleanup", lambda: None)()
     env = {k: v for k, v in XSH.env.detype().items() if k not in VOLATILE_ENV}
     try:
         cwd = os.getcwd()
@@ -436,9 +455,16 @@ def snapshot(XSH, work, base):
 def quiesce():
     """gc + real-time poll until no helper thread is alive and no child is still running (a
     zombie with no helper thread left will not be reaped by anybody: final)."""
+    import subprocess
+
     deadline = time.time() + QUIESCE_S
+    reap = getattr(subprocess, "_cleanup", None)
     while True:
         gc.collect()
+        if reap is not None:
+            # children of already collected Popen objects are reaped by CPython itself on the next
+            # Popen(): a pending finalizer like any other, so run it now
+            reap()
         busy = threading.active_count() > 1 or any(s != "Z" for _p, s in _children())
         if not busy or time.time() >= deadline:
             return
@@ -466,6 +492,7 @@ class _CaseTimeout(BaseException):
 
 _HANG_STACKS = []
 _THREAD_DEATHS = []
+_INJECTED_DEATHS = []
 
 
 def _excepthook(args):
@@ -473,6 +500,10 @@ def _excepthook(args):
     try:
         import traceback
 
+        if _is_injected(args.exc_value):
+            _INJECTED_DEATHS.append(type(args.thread).__name__)
+            threading.__excepthook__(args)
+            return
         tb = traceback.extract_tb(args.exc_traceback)
         inner = tb[-1] if tb else None
         xon = [f for f in tb if "/xonsh/" in f.filename]
@@ -581,6 +612,7 @@ def _child(case, resfd):
             signal.setitimer(signal.ITIMER_REAL, 0)
         res["outcomes"] = outcomes
         res["thread_deaths"] = sorted(set(_THREAD_DEATHS))
+        res["injected_thread_deaths"] = sorted(set(_INJECTED_DEATHS))
         res["log"] = logs[0] if logs else []
         res["logs_equal"] = all(sorted(map(tuple, lg)) == sorted(map(tuple, logs[0])) for lg in logs) if logs else True
         res["fired"] = inj.fired
